@@ -8,7 +8,7 @@ ACC = {'rdp': 'AccRDP', 'prv': 'AccPRV', 'gdp': 'AccGDP'}
 
 
 def zl(l):
-    return '[' + '; '.join('%d%%Z' % x for x in l) + ']'
+    return '[' + '; '.join('(%d)%%Z' % x for x in l) + ']'
 
 
 def coq_op(name, arg):
